@@ -114,6 +114,13 @@ def main(prop, meta):
         return 0
 
     native_proc = None if a.no_native else run_native(prop, a.root, tier, seed)
+    lean_procs = []
+    for lf in meta.get("lean", []):        # lemmas proved outside SMT: re-checked by `lean` in the thorough tier, hash recorded in every tier
+        lp = os.path.join(VERIF, "lean", lf)
+        src = open(lp).read()
+        rec = {"file": "lean/" + lf, "sha256": hashlib.sha256(src.encode()).hexdigest(), "sorry_or_axiom_in_source": bool(re.search(r"\b(sorry|axiom|admit)\b", src)), "rechecked": False}
+        pr = subprocess.Popen(["lean", lp], stdout=subprocess.PIPE, stderr=subprocess.STDOUT, text=True, cwd=os.path.join(VERIF, "lean")) if tier == "thorough" else None
+        lean_procs.append((rec, pr, time.time()))
     mod = __import__(f"contracts.{prop.lower()}", fromlist=["units"])
     units = mod.units(a.root)
     idxs = [i for i, u in enumerate(units) if not a.only or a.only in u.name]
@@ -193,6 +200,19 @@ def main(prop, meta):
         else:
             undecided.append(r)
 
+    lean_results = []
+    for rec, pr, t_ in lean_procs:
+        if pr is not None:
+            try:
+                out_, _ = pr.communicate(timeout=3600)
+                rec.update(rechecked=True, ok=(pr.returncode == 0 and "error" not in out_.lower() and "sorry" not in out_.lower()), seconds=round(time.time() - t_, 1), output_tail=out_[-300:])
+            except Exception as e_:
+                rec.update(rechecked=True, ok=False, output_tail=f"{type(e_).__name__}: {e_}")
+            if not rec["ok"]:
+                errors.append({"unit": "lean " + rec["file"], "error": "lemma file not accepted by lean: " + rec.get("output_tail", "")[-200:]})
+        if rec["sorry_or_axiom_in_source"]:
+            errors.append({"unit": "lean " + rec["file"], "error": "lemma file contains sorry / axiom / admit"})
+        lean_results.append(rec)
     vacuous = [c for c in canaries if c["status"] == "vacuous"]
     seen_kf = set()
     for kf, _ in known_hits:
@@ -265,6 +285,7 @@ def main(prop, meta):
         "unit_errors": [{"unit": e["unit"], "error": e["error"]} for e in errors],
         "undecided": [r["id"] for r in undecided],
         "known_findings_hit": sorted(seen_kf),
+        "lemmas_outside_smt": lean_results,
     }
     if native:
         cov["evaluations"] = int(native.get("evaluations", 0))
